@@ -94,6 +94,15 @@ class Convert(Sub):
         E = A.astimezone(T.zi(b))
         expect("astimezone(ZoneInfo)", E, u, b, name=None)
         req(getattr(E.tzinfo, "key", None) == b, "astimezone(ZoneInfo): result does not carry the requested tzinfo")
+        # a value that CARRIES a foreign tzinfo (what astimezone(ZoneInfo / datetime.timezone) hands back) converts on like any other aware value
+        expect("foreign-tzinfo value .in_timezone(name)", E.in_timezone(c), u, c)
+        expect("foreign-tzinfo value .in_tz(UTC)", E.in_tz("UTC"), u, "UTC")
+        expect("foreign-tzinfo value .astimezone(Timezone)", E.astimezone(pendulum.timezone(c)), u, c)
+        expect("foreign-tzinfo value .astimezone(ZoneInfo)", E.astimezone(T.zi(c)), u, c, name=None)
+        E2 = A.astimezone(D.timezone(D.timedelta(seconds=off)))
+        expect("astimezone(datetime.timezone)", E2, u, off, name=None)
+        expect("datetime.timezone value .in_timezone(name)", E2.in_timezone(b), u, b)
+        expect("datetime.timezone value .astimezone(Timezone)", E2.astimezone(pendulum.timezone(b)), u, b)
         C1 = B.in_timezone(c)
         C2 = A.in_timezone(c)
         expect("A->B->C", C1, u, c)
@@ -267,6 +276,7 @@ class AllTransitions(Sub):
     """Exhaustive over the enumerated transitions (every zone) x probe offsets."""
     name = "all_transitions"
     kind = "enum"
+    case_timeout = 900.0
     backends = ("rust",)
     n = {"quick": 0, "thorough": 0}
     shards = {"quick": 4, "thorough": 16}
